@@ -253,6 +253,11 @@ def gen_point(rng, identity):
         return rng.choice([-1, 1]) * 10 ** rng.uniform(-3, 6)
 
     def angle():
+        if rng.random() < 0.3:
+            # a small set of favourite angles, revisited again and again
+            # between hundreds of other values
+            return rng.choice([0.0, math.pi / 2, math.pi, -math.pi / 2,
+                               math.pi / 3, 1.0, 2.5, -3.0])
         return rng.uniform(-4 * math.pi, 4 * math.pi)
     if identity in ('f_normalize', 'f_mag_distance'):
         zero = rng.random() < 0.05
